@@ -20,6 +20,10 @@ import (
 	"github.com/markusmobius/go-domdistiller/internal/extractor/embed"
 	"github.com/markusmobius/go-domdistiller/internal/label"
 	"github.com/markusmobius/go-domdistiller/internal/markup"
+	"github.com/markusmobius/go-domdistiller/internal/pagination"
+	"github.com/markusmobius/go-domdistiller/internal/pagination/info"
+	"github.com/markusmobius/go-domdistiller/internal/pagination/parser"
+	"github.com/markusmobius/go-domdistiller/internal/pagination/pattern"
 	"github.com/markusmobius/go-domdistiller/internal/stringutil"
 	"github.com/markusmobius/go-domdistiller/internal/tableclass"
 	"github.com/markusmobius/go-domdistiller/internal/webdoc"
@@ -369,4 +373,184 @@ func VerifTitle(root *html.Node) VerifTitleInfo {
 		}
 	}
 	return info
+}
+
+// ---- pagination
+
+type VerifPageInfo struct {
+	Num int
+	URL string
+}
+
+type VerifPageGroup struct {
+	List      []VerifPageInfo
+	DeltaSign int
+}
+
+type VerifPattern struct {
+	Key      string
+	Value    int
+	ValidFor bool
+}
+
+type VerifURLAtoms struct {
+	URL    string
+	Parses bool
+	Query  []VerifPattern
+	Path   []VerifPattern
+}
+
+type VerifParamInfo struct {
+	IsPageNumber bool
+	Pattern      string
+	Pages        []VerifPageInfo
+	HasFormula   bool
+	Coefficient  int
+	Delta        int
+	Next         string
+}
+
+// VerifPaginationData: everything the page-number algorithm computes for one document, stage
+// by stage, with the answers of the URL-parsing leaves (page patterns) it used.
+type VerifPaginationData struct {
+	Groups     []VerifPageGroup // after the DOM scan, before detection
+	DocURLArg  string           // the string DetectParamInfo receives
+	DocParses  bool
+	DocURL     string // parsedDocURL.String()
+	StrPageURL string // the unescaped form FindPagination compares with
+	URLs       []VerifURLAtoms
+	PagingKeys []string // pattern keys, in the order of IsPaging rows
+	PagingURLs []string // URLs, in the order of IsPaging columns
+	IsPaging   [][]bool
+	Param      VerifParamInfo // DetectParamInfo on a second scan
+	Next, Prev string         // PageNumberFinder.FindPagination on a third scan
+}
+
+func verifGroups(g *info.MonotonicPageInfoGroups) []VerifPageGroup {
+	var out []VerifPageGroup
+	for _, grp := range g.Groups {
+		vg := VerifPageGroup{DeltaSign: grp.DeltaSign}
+		for _, p := range grp.List {
+			vg.List = append(vg.List, VerifPageInfo{Num: p.PageNumber, URL: p.URL})
+		}
+		out = append(out, vg)
+	}
+	return out
+}
+
+func VerifPagination(root *html.Node, pageURL *nurl.URL) VerifPaginationData {
+	wc := stringutil.SelectWordCounter(dom.TextContent(root))
+	trimmed, strPageURL := pagination.VerifTrimmedPageURL(pageURL)
+	d := VerifPaginationData{DocURLArg: trimmed.String(), StrPageURL: strPageURL}
+	d.Groups = verifGroups(pagination.VerifNumberGroups(root, trimmed, wc))
+
+	parsedDocURL, err := nurl.ParseRequestURI(d.DocURLArg)
+	d.DocParses = err == nil && parsedDocURL.Scheme != "" && parsedDocURL.Hostname() != ""
+	if d.DocParses {
+		parsedDocURL.User = nil
+		d.DocURL = parsedDocURL.String()
+	}
+
+	// page patterns of every URL the detection can look at
+	seen := map[string]bool{}
+	urls := []string{}
+	add := func(u string) {
+		if u != "" && !seen[u] {
+			seen[u] = true
+			urls = append(urls, u)
+		}
+	}
+	for _, g := range d.Groups {
+		for _, p := range g.List {
+			add(p.URL)
+		}
+	}
+	if d.DocParses {
+		add(d.DocURL)
+	}
+	patterns := map[string]pattern.PagePattern{}
+	conv := func(ps []pattern.PagePattern) []VerifPattern {
+		var out []VerifPattern
+		for _, p := range ps {
+			if _, ok := patterns[p.String()]; !ok {
+				patterns[p.String()] = p
+				d.PagingKeys = append(d.PagingKeys, p.String())
+			}
+			out = append(out, VerifPattern{Key: p.String(), Value: p.PageNumber(), ValidFor: d.DocParses && p.IsValidFor(parsedDocURL)})
+		}
+		return out
+	}
+	for _, u := range urls {
+		ua := VerifURLAtoms{URL: u}
+		if _, err := nurl.ParseRequestURI(u); err == nil {
+			if url, err := nurl.Parse(u); err == nil {
+				url.User = nil
+				url.Fragment = ""
+				url.RawFragment = ""
+				ua.Parses = true
+				ua.Query = conv(pattern.QueryParamPagePatternsFromURL(url))
+				ua.Path = conv(pattern.PathComponentPagePatternsFromURL(url))
+			}
+		}
+		d.URLs = append(d.URLs, ua)
+	}
+	d.PagingURLs = append(d.PagingURLs, urls...)
+	if d.DocParses {
+		if t := strings.TrimSuffix(d.DocURL, "/"); !seen[t] {
+			d.PagingURLs = append(d.PagingURLs, t)
+		}
+	}
+	for _, k := range d.PagingKeys {
+		row := make([]bool, len(d.PagingURLs))
+		for i, u := range d.PagingURLs {
+			row[i] = patterns[k].IsPagingURL(u)
+		}
+		d.IsPaging = append(d.IsPaging, row)
+	}
+
+	pi := parser.DetectParamInfo(pagination.VerifNumberGroups(root, trimmed, wc), d.DocURLArg, nil)
+	d.Param = VerifParamInfo{IsPageNumber: pi.Type == info.PageNumber, Pattern: pi.PagePattern, Next: pi.NextPagingURL}
+	for _, p := range pi.AllPageInfo {
+		d.Param.Pages = append(d.Param.Pages, VerifPageInfo{Num: p.PageNumber, URL: p.URL})
+	}
+	if pi.Formula != nil {
+		d.Param.HasFormula, d.Param.Coefficient, d.Param.Delta = true, pi.Formula.Coefficient, pi.Formula.Delta
+	}
+
+	res := pagination.NewPageNumberFinder(wc, nil, nil).FindPagination(root, pageURL)
+	d.Next, d.Prev = res.NextPage, res.PrevPage
+	return d
+}
+
+// VerifPrevNextLink is what the prev/next finder noted about one anchor.
+type VerifPrevNextLink struct {
+	Vid   string
+	Debug string
+}
+
+func VerifPrevNext(root *html.Node, pageURL *nurl.URL, findNext bool) ([]VerifPrevNextLink, string) {
+	trace, result := pagination.VerifPrevNextTrace(root, pageURL, findNext)
+	var out []VerifPrevNextLink
+	for _, t := range trace {
+		out = append(out, VerifPrevNextLink{Vid: verifVid(t.Link), Debug: t.Debug})
+	}
+	return out, result
+}
+
+// VerifNormaliseLink is the clean-up the prev/next finder applies to the href of a candidate:
+// made absolute, fragment and trailing slash removed, unescaped.
+func VerifNormaliseLink(href string, pageURL *nurl.URL) (string, bool) {
+	linkHref := stringutil.CreateAbsoluteURL(href, pageURL)
+	if _, err := nurl.ParseRequestURI(linkHref); err != nil {
+		return "", false
+	}
+	tmp, err := nurl.Parse(linkHref)
+	if err != nil {
+		return "", false
+	}
+	tmp.Fragment = ""
+	tmp.RawFragment = ""
+	tmp.Path = strings.TrimSuffix(tmp.Path, "/")
+	tmp.RawPath = tmp.Path
+	return stringutil.UnescapedString(tmp), true
 }
